@@ -52,8 +52,8 @@ theorem rotate_others (c : Color α) (d : α) (hc : Valid c) :
   ⟨clamp_id hc.sat_range.2.1 hc.sat_range.2.2, clamp_id hc.light_range.2.1 hc.light_range.2.2,
    clamp_id hc.alpha_range.2.1 hc.alpha_range.2.2⟩
 
-theorem rotate_hue_field (c : Color α) (d : α) (h : isFinite (hueValue c.hue + d) = true) :
-    (rotateHue c d).hue = hueValue c.hue + d := by
+theorem rotate_hue_field (c : Color α) (d : α) (h : isFinite (hueValue c.hue + fmod d 360.0) = true) :
+    (rotateHue c d).hue = hueValue c.hue + fmod d 360.0 := by
   simp [rotateHue, fromHsla, hueFrom, h]
 
 /-- `complementary` is `rotate_hue(180)` (definitional). -/
@@ -152,9 +152,13 @@ theorem rotate_adds_mod_turns (c : Color ℝ) (hc : Valid c) (d : ℝ) :
   have a0' : (0 : ℝ) ≤ c.alpha := by simpa using a0
   have a1' : c.alpha ≤ (1 : ℝ) := by simpa using a1
   obtain ⟨j, hj⟩ := real_hueValue_turns c.hue
-  refine ⟨⟨j, ?_⟩, ?_, ?_, ?_⟩
-  · show hueFrom (hueValue c.hue + d) = _
-    unfold hueFrom; simp only [real_isFinite, if_true]; rw [hj]; ring
+  refine ⟨⟨j - rtrunc (d / 360), ?_⟩, ?_, ?_, ?_⟩
+  · -- the amount is reduced to less than a turn first (`delta % 360`), an integer number of turns
+    have hf : Sc.fmod d (360.0 : ℝ) = d - 360 * ((rtrunc (d / 360) : ℤ) : ℝ) := by
+      show d - (360.0 : ℝ) * ((rtrunc (d / (360.0 : ℝ)) : ℤ) : ℝ) = _
+      norm_num
+    show hueFrom (hueValue c.hue + Sc.fmod d (360.0 : ℝ)) = _
+    unfold hueFrom; simp only [real_isFinite, if_true]; rw [hj, hf]; push_cast; ring
   · simp only [rotateHue, fromHsla, clamp]; sc_norm; push_cast
     rw [min_eq_right s1, max_eq_left s0]
   · simp only [rotateHue, fromHsla, clamp]; sc_norm; push_cast
